@@ -792,7 +792,7 @@ func checkBalancedLocks(c *RuleCtx) {
 				return mid == id && (op == "Unlock" || op == "RUnlock")
 			}
 			for _, b := range g.C.Blocks {
-				if !b.Live || len(b.Succs) != 0 || g.isPanicExit(b) {
+				if !b.Live || len(b.Succs) != 0 || g.isPanicExit(b) || isSelectDeadEnd(b) {
 					continue
 				}
 				m := lf.in[b]
